@@ -757,6 +757,28 @@ pub fn c18_subs() -> Vec<Sub> {
                 }
             }
         }),
+        exh_sub("exh-single-stops-all-widths", (140, 140), run.clone(), |i, tier, acc| {
+            // one stop at every column, cursor at every column, every width up to 140
+            // (sparse stop sets on wide screens: distances of more than 64 / 128 columns)
+            let w = i as u32 + 1;
+            let mut ex = Explorer::new(cfg_for("C18"), acc);
+            let step = if tier == Tier::Thorough || w <= 40 || w >= 126 { 1 } else { 3 };
+            for s in (0..w).step_by(step) {
+                let setup = vec![Op::Tbc(Some(3)), Op::Cha(Some(s + 1)), Op::Hts, Op::Cr];
+                let mut cands: Vec<Vec<Op>> = Vec::new();
+                for x in 0..w {
+                    cands.push(vec![Op::Cha(Some(x + 1)), Op::Tab]);
+                }
+                // a second stop far to the right of the first
+                for s2 in [s + 64, s + 65, s + 128, s + 129, s + 130] {
+                    if s2 < w {
+                        cands.push(vec![Op::Cha(Some(s2 + 1)), Op::Hts, Op::Cha(Some(s + 1)), Op::Tab, Op::Tab]);
+                        cands.push(vec![Op::Cha(Some(s2 + 1)), Op::Hts, Op::Cha(Some(s + 1)), Op::Tbc(None), Op::Cr, Op::Tab]);
+                    }
+                }
+                ex.state(w, 1, &setup, &mut cands.into_iter());
+            }
+        }),
         exh_sub("exh-width-changes", (7, 10), run, |i, _t, acc| {
             // a stop set at one width, used at another (resize and DECCOLM in between)
             let w = i as u32 + 2;
